@@ -39,7 +39,7 @@ MUST_HIT = ["timeout_between_messages", "observer_busy_at_stop_marker", "zero_de
             "validator_object_passed_to_worker", "clock_at_end_of_second", "overlapping_reader",
             "reader_with_max_read_and_saver", "tokenizer_with_logger_zero_detections", "stale_temporary_wav_present",
             "more_than_4096_detections", "recording_reader", "saver_default_cache", "audio_block_equal_to_a_library_constant",
-            "observer_busy_for_more_than_a_second"]
+            "observer_busy_for_more_than_a_second", "parameters_refused_by_the_worker_constructor"]
 ASSUMPTIONS = [
     "interleavings are explored at the granularity of queue operations, source reads, observer callbacks, thread start/exit and joins (DESIGN 3.4)",
     "liveness judged under the harness's fair continuation after the generated prefix",
@@ -131,7 +131,7 @@ def judge_files(run, case, exp, blocks):
         (also when the name has no extension)"""
         if not os.path.exists(path):
             raise Violation(f"{what}: no file {os.path.basename(path)!r} after the run", case)
-        if ext == ".raw":
+        if ext.lower() == ".raw":
             with open(path, "rb") as fp:
                 return (sr, sw, ch), fp.read()
         try:
@@ -175,7 +175,7 @@ def judge_files(run, case, exp, blocks):
                 f"region files {sorted(os.path.basename(x) for x in have)} != expected "
                 f"{sorted(os.path.basename(x) for x in want_files)}", case)
         for name, b in want_files.items():
-            if name.endswith(".wav"):
+            if name.lower().endswith(".wav"):
                 params, frames = pipeline.read_wav(name)
                 if params != (sr, sw, ch) or frames != b:
                     raise Violation(f"region file {os.path.basename(name)} does not hold its detection", case)
@@ -183,6 +183,57 @@ def judge_files(run, case, exp, blocks):
                 with open(name, "rb") as fp:
                     if fp.read() != b:
                         raise Violation(f"region file {os.path.basename(name)} does not hold its detection", case)
+
+
+def judge_after_release(run, case):
+    """C13: the files are what counts, not the worker objects - once the program has let go of the
+    workers (and they have been collected), the saved stream and the joined events are still there."""
+    paths = []
+    if case.get("saver"):
+        paths.append(run.saver_path)
+    if getattr(run, "joiner_path", None) and "joiner" in case["observers"]:
+        paths.append(run.joiner_path)
+    before = {}
+    for p in paths:
+        if os.path.exists(p):
+            with open(p, "rb") as fp:
+                before[p] = fp.read()
+    pipeline.release(run)
+    for p, blob in before.items():
+        if not os.path.exists(p):
+            raise Violation(f"{os.path.basename(p)} disappeared once the worker that wrote it was released and collected", case)
+        with open(p, "rb") as fp:
+            if fp.read() != blob:
+                raise Violation(f"{os.path.basename(p)} changed once the worker that wrote it was released and collected", case)
+
+
+def check_bad_params(case, rec):
+    """Durations that split() refuses must be refused when the worker is built - not in its thread, where
+    nobody would tell the observers to stop."""
+    import auditok as _a
+    import auditok.workers as W
+
+    r = case["audio"]
+    data, thr = audio.synth(r)
+    sr, sw, ch, B = r["sr"], r["sw"], r["ch"], r["B"]
+    w = B / sr
+    kw = dict(case["bad_params"])
+    kw = {k: (v * w if k in ("min_dur", "max_dur", "max_silence") else v) for k, v in kw.items()}
+    try:
+        list(_a.split(_a.AudioReader(data, block_dur=w, sampling_rate=sr, sample_width=sw, channels=ch), energy_threshold=thr, **kw))
+        refused_by_split = False
+    except ValueError:
+        refused_by_split = True
+    if not refused_by_split:
+        raise HarnessError("bad_params member accepted by split()")
+    reader = _a.AudioReader(data, block_dur=w, sampling_rate=sr, sample_width=sw, channels=ch)
+    obs = [pipeline.make_rec_observer(None), W.PrintWorker()]
+    try:
+        tk = W.TokenizerWorker(reader, obs, energy_threshold=thr, **kw)
+    except ValueError:
+        rec.note(case, True, {"parameters_refused_by_the_worker_constructor"}, out="ValueError")
+        return
+    raise Violation(f"TokenizerWorker accepted {case['bad_params']} (in windows), which split() refuses with ValueError: {tk!r}", case)
 
 
 def judge_twin(run):
@@ -237,6 +288,8 @@ def check_free_only(case, rec):
 
 
 def check_case(case, rec):
+    if case.get("bad_params"):
+        return check_bad_params(case, rec)
     if case.get("free_only"):
         return check_free_only(case, rec)
     run = pipeline.run_pipeline(case, scheduled=True)
@@ -376,6 +429,9 @@ def explicit_cases():
         {"audio": a, "win": [2, 4, 1, False, False], "saver": None, "observers": ["rec", "print"], "record": True, "choices": [0, 1, 2, 3] * 20},
         {"audio": a, "win": [2, 4, 1, False, False], "saver": {"cache": 0.02}, "observers": ["rec"], "record": True, "mr": [25, 0],
          "choices": [-1] * 10 + [0, 1, 2, 3] * 20},
+        {"audio": a, "bad_params": {"min_dur": 5, "max_dur": 3, "max_silence": 0}}, {"audio": a, "bad_params": {"min_dur": 1, "max_dur": 5, "max_silence": 5}},
+        {"audio": a, "bad_params": {"min_dur": 1, "max_dur": 5, "max_silence": 1, "use_channel": 7}},
+        {"audio": a, "bad_params": {"min_dur": 0, "max_dur": 5, "max_silence": 1}}, {"audio": a, "bad_params": {"min_dur": 1, "max_dur": 5, "max_silence": -1}},
         # an observer that needs more than a second for one detection (a slow command, a slow disk)
         {"audio": a, "win": [2, 4, 1, False, False], "saver": None, "observers": ["rec", "rec"], "choices": [], "free_only": True,
          "jitter": [1.25, 0.0, 0.0, 0.0, 0.0, 0.0, 0.0, 0.0]},
@@ -405,7 +461,7 @@ def strategy(draw, maxwin, free=False):
         lambda x: {"cache": x}, st.sampled_from([0, 0.5 / sr, B / sr / 2, B / sr, 3 * B / sr, 1000.0]))))
     c["join_sil"] = [draw(st.integers(0, 5)), draw(st.sampled_from([0, 0.25, 0.5, 0.75]))]
     c["tmpl"] = draw(TMPL)
-    c["ext"] = draw(st.sampled_from(["wav", "raw"]))
+    c["ext"] = draw(st.sampled_from(["wav", "raw", "wav", "raw", "WAV", "Wav", "RAW"]))
     nthreads = 2 + len(obs)
     c["choices"] = draw(st.one_of(
         st.lists(st.integers(0, nthreads), max_size=400),
@@ -415,8 +471,8 @@ def strategy(draw, maxwin, free=False):
     c["start"] = draw(st.sampled_from(["start_all", "start_all", "start_all", "tokenizer_first", "tokenizer_middle"]))
     c["src_kind"] = draw(st.sampled_from(["harness", "harness", "harness", "wav_lazy", "raw_lazy"]))
     if c["saver"]:
-        c["saver"]["ext"] = draw(st.sampled_from([".wav", ".wav", "", ".raw"]))
-    c["joiner_ext"] = draw(st.sampled_from([".wav", ".wav", "", ".raw"]))
+        c["saver"]["ext"] = draw(st.sampled_from([".wav", ".wav", "", ".raw", ".WAV", ".Wav", ".Raw"]))
+    c["joiner_ext"] = draw(st.sampled_from([".wav", ".wav", "", ".raw", ".WAV", ".Wav", ".RAW"]))
     c["twin"] = draw(rarely(8))
     c["relative"] = draw(rarely(6))
     c["clock_us"] = draw(st.one_of(st.none(), st.sampled_from([0, 1, 499, 500, 999499, 999500, 999999]), st.integers(0, 999999)))
